@@ -78,6 +78,8 @@ pub struct Scenario {
     pub post_gates: bool,
     pub faults: u32,
     pub faultable: fn(&OpDesc) -> bool,
+    /// empty the writer's cache after the set-up publishes (cold cache at the start of the controlled phase)
+    pub cold_writer_cache: bool,
 }
 
 impl Scenario {
@@ -168,6 +170,9 @@ pub fn run_scenario<TC: ModelCfg>(sc: &Scenario, chooser: &mut Chooser) -> RunOu
         }
         for b in &sc.lag_publishes {
             writer.publish(to_akd_batch(b)).await.expect("lag publish");
+        }
+        if sc.cold_writer_cache {
+            writer_mgr.flush_cache().await;
         }
         // ---- controlled phase
         let notif = Arc::new(std::sync::atomic::AtomicU64::new(0));
